@@ -282,6 +282,24 @@ def r5_eq_hash(ctx):
                       f"(condense_ballots, to_ballot_dict) then merge by insertion order")
         else:
             ctx.ok(eq, node, f"Ballot.__eq__ compares `{fld}`" + (" (not carried by key objects)" if fld not in key_fields else ""), f"guards: {sorted(lits) or 'none'}")
+    # polarity: a differing field makes the ballots unequal (return False under `self.f != other.f`), equal fields fall through to True
+    rets = [r for r in astx.walk_own(eq.node) if isinstance(r, ast.Return)]
+    false_lits = [literals(N.conj(astx.path_condition(eq.node, r, pm, carried=False))) for r in rets if astx.is_const(r.value, False)]
+    # (the canonical form folds a closing `if self.f != other.f: return False` / `return True` into `return self.f == other.f`)
+    last = eq.node.body[-1]
+    folded = None
+    if isinstance(last, ast.Return) and isinstance(last.value, ast.Compare) and len(last.value.ops) == 1 and isinstance(last.value.ops[0], ast.Eq):
+        sides = {astx.u(last.value.left), astx.u(last.value.comparators[0])}
+        for fld in compared:
+            if sides == {f"self.{fld}", f"{other}.{fld}"}:
+                folded = fld
+                false_lits.append({f"not eq(self.{fld}, {other}.{fld})"})
+    for fld in compared:
+        want = {f"not eq(self.{fld}, {other}.{fld})", f"not eq({other}.{fld}, self.{fld})"}
+        ctx.check_shape(any(l & want for l in false_lits), eq, compared[fld][0], f"Ballot.__eq__: ballots that differ in `{fld}` are unequal", "",
+                        f"no `return False` is taken when self.{fld} != {other}.{fld} (the comparison of `{fld}` decides the wrong way round or nothing)")
+    ctx.check_shape((folded is not None or (isinstance(last, ast.Return) and astx.is_const(last.value, True))) and not any(astx.is_const(r.value, True) for r in rets if r is not last), eq, last,
+                    "Ballot.__eq__: ballots that agree in every compared field are equal", "", "the fall-through result of __eq__ is not True (or True is returned early)")
     # hash uses only unconditionally compared fields
     used = {m.group(1) for m in re.finditer(r"self\.(\w+)", astx.u(hs.node))}
     uncond = {f for f, (n, lits, asym) in compared.items() if not lits}
@@ -311,9 +329,48 @@ def r5_eq_hash(ctx):
     ctx.check(not bad, hs, bad[0] if bad else hs.node, "__hash__ reads dict/set-valued fields only through frozenset(...)/sorted(...)", f"unordered fields: {sorted(unordered)}",
               f"`{astx.u(astx.stmt_of(bad[0], hpm))[:90] if bad else ''}`: `self.{bad[0].attr if bad else ''}` is hashed in its insertion order, but __eq__ ignores that order")
     rets = [n for n in astx.walk_own(eq.node) if isinstance(n, ast.Return)]
-    ctx.check(any(not astx.is_const(r.value, False) for r in rets) and f"not truthy(isinstance({other}, Ballot))" in
-              {x for r in rets if astx.is_const(r.value, False) for x in literals(N.conj(astx.path_condition(eq.node, r, pm)))}, eq, eq.node,
+    ctx.check(any(not astx.is_const(r.value, False) for r in rets) and any(
+                  literals(N.conj(astx.path_condition(eq.node, r, pm, carried=False))) == {f"not truthy(isinstance({other}, Ballot))"} for r in rets if astx.is_const(r.value, False)), eq, eq.node,
               "non-Ballot operands compare unequal", "", "type check of __eq__ changed")
+
+
+def index_cursor_problems(f):
+    """`L[i] = value` inside a loop, with i a counter of its own (not the loop variable): the counter must start at 0, be
+    advanced by exactly one as a statement of the loop body after the stores, on every iteration, and nowhere else.  Returns
+    [(node, message)] for the counters that are not (a list built with append or a comprehension has no such counter)."""
+    pm = astx.parents(f.node)
+    out = []
+    seen = set()
+    for st in astx.walk_own(f.node):
+        if not (isinstance(st, ast.Assign) and len(st.targets) == 1 and isinstance(st.targets[0], ast.Subscript) and isinstance(st.targets[0].slice, ast.Name)
+                and isinstance(st.targets[0].value, ast.Name)):
+            continue
+        i = st.targets[0].slice.id
+        cont = astx.unique_def(f.node, st.targets[0].value.id)
+        if not (isinstance(cont, ast.BinOp) and isinstance(cont.op, ast.Mult) and (isinstance(cont.left, ast.List) or isinstance(cont.right, ast.List))):
+            continue   # not a pre-sized list (a dictionary keyed by a name, a list indexed by the loop variable, ...)
+        lp = astx.enclosing(st, pm, ast.For)
+        if lp is None or i in astx.assigned_names(lp.target) or (i, id(lp)) in seen:
+            continue
+        seen.add((i, id(lp)))
+        stores = [n for n in astx.walk_own(lp) if isinstance(n, ast.Assign) and isinstance(n.targets[0], ast.Subscript) and astx.is_name(n.targets[0].slice, i)]
+        top = {id(b): k for k, b in enumerate(lp.body)}
+
+        def top_index(n):
+            while n is not None and id(n) not in top:
+                n = pm.get(n)
+            return top.get(id(n), -1)
+        last_store = max(top_index(n) for n in stores)
+        advances = [b for b in lp.body if (isinstance(b, ast.AugAssign) and astx.is_name(b.target, i) and isinstance(b.op, ast.Add) and astx.is_const(b.value, 1))
+                    or (isinstance(b, ast.Assign) and astx.is_name(b.targets[0], i) and astx.u(b.value) in (f"{i} + 1", f"1 + {i}"))]
+        others = [n for n in astx.walk_own(lp) if isinstance(n, (ast.Assign, ast.AugAssign)) and astx.is_name(n.targets[0] if isinstance(n, ast.Assign) else n.target, i) and n not in advances]
+        inits = [dv for s_, dv in astx.defs_of(f.node, i) if dv is not None and astx.enclosing(s_, pm, ast.For) is not lp]
+        if len(advances) != 1 or others or top.get(id(advances[0]), -1) < last_store:
+            out.append((st, f"the cursor `{i}` of `{astx.u(st.targets[0])}` is not advanced by exactly one after each store (advances in the loop body: {len(advances)}, other writes: {len(others)}): "
+                            "entries overwrite each other or leave the pre-filled placeholder behind"))
+        elif not (len(inits) == 1 and astx.is_const(inits[0], 0)):
+            out.append((st, f"the cursor `{i}` of `{astx.u(st.targets[0])}` does not start at 0"))
+    return out
 
 
 def r6_condense_add(ctx):
@@ -371,6 +428,9 @@ def r6_condense_add(ctx):
         good = good and kw.get("ranking") == f"{kb}.ranking" and kw.get("weight") == kwt and kw.get("scores", f"{kb}.scores") == f"{kb}.scores" \
             and astx.u(lp.iter).endswith(".items()")
     ctx.check(good, f, rebuilt[0] if rebuilt else f.node, "one ballot per key, carrying the accumulated weight", "", "condensed ballots are not rebuilt from (key content, accumulated weight)")
+    # ... each at a place of its own: a list filled through an index cursor advances the cursor once per key
+    for why in index_cursor_problems(f):
+        ctx.violated(f, why[0], "one ballot per key, carrying the accumulated weight", why[1])
     pc = [c for c in astx.calls_in(f.node, "PreferenceProfile")]
     good = len(pc) == 1 and {k.arg: astx.u(k.value) for k in pc[0].keywords}.get("candidates") == "self.candidates"
     ctx.check(good, f, pc[0] if pc else f.node, "condensed profile keeps the same candidates", "", "condense_ballots does not pass self.candidates on")
